@@ -61,6 +61,19 @@ def run(tier, seed):
             present(s, c, flags=fl)
             if fl & 0x04:
                 present(s, c, flags=fl, ruv=True)
+    # assertions carrying extension data that is valid but non-canonical CBOR: whatever the parser makes of them, an ACCEPTED one obeys the rule
+    for ext in (b"\xbf\x6bcredProtect\x02\xff", b"\xb8\x01\x6bcredProtect\x02", b"\xa1\x78\x0bcredProtect\x18\x02", b"\xa1\x6bcredProtect\x19\x00\x02", b"\xbf\xff", b"\xa1\x6bcredProtect\x02\x00"):
+        for (st, c) in [(0, 0), (10, 5), (5, 5), (4, 5), (B31, 1), (B32 - 1, 0), (0, B32 - 1), (1, 2)]:
+            sc = authcat.Scn("ES256-P256")
+            sc.flags, sc.ext, sc.count = 0x85, ext, c
+            pol, a = sc.build()
+            pol = impl.AuthPolicy(pol.challenge, pol.rp_id, pol.origin, pol.pubkey, st, False)
+            il, ml = B.run_case(pol, a, "record", None, f"counter s={st} c={c} non-canonical-extension-cbor")
+            if il.startswith("OK"):
+                new = fw.rd_i(il.split()[2])
+                if not ((c > st) or (c == 0 and st == 0)) or new != c:
+                    chk.violation(f"assertion with non-canonical extension CBOR accepted against the counter rule (s={st}, c={c}, reported {new})", f"counter-noncanonical-ext s={st} c={c}",
+                                  {"stored": st, "c": c, "extension_hex": ext.hex(), "impl": il, "credential": a.as_dict()})
     chk.sample({"grid": GRID, "example_pair": pairs[8]})
     # 2. histories
     ctrs = [0, 1, 1, 2, B31, B32 - 1]          # six pre-signed assertions (one counter repeated: two distinct assertions)
